@@ -446,7 +446,8 @@ pub fn serve_cfg(c: Cfg) {
     } else {
         hdr_assert!(c, unsafe { !PARSE_GOT_HDR }, "C05: Range honoured although If-Range does not match a strong ETag");
     }
-    if c.focus != FOCUS_BODY {
+    // 413 (and 400) are built from a fresh response: C14 lists 200, 206, 304, 412 and 416 only
+    if c.focus != FOCUS_BODY && st != 413 && st != 400 {
         check_common_headers(&sn, &d);
     }
 
@@ -805,6 +806,8 @@ pub mod pgen;
 
 #[path = "serve_gen.rs"]
 pub mod gen;
+
+
 
 
 
